@@ -40,13 +40,20 @@ def import_file(path):
     return mod
 
 
-def compile_prophy(text, workdir, base, extra_args=()):
-    """write `text` as <workdir>/<base>.prophy, compile to python, import; returns (nodes, module)"""
+def compile_prophy(text, workdir, base, extra_args=(), patch=None):
+    """write `text` as <workdir>/<base>.prophy, compile to python, import; returns (nodes, module);
+    `patch` rewrites the generated Python source before the import"""
     os.makedirs(workdir, exist_ok=True)
     src = os.path.join(workdir, base + '.prophy')
     with open(src, 'w') as f:
         f.write(text)
     res, _ = run_prophyc(['--python_out', workdir] + list(extra_args) + [src])
+    if patch is not None:
+        gen = os.path.join(workdir, base + '.py')
+        with open(gen) as f:
+            source = f.read()
+        with open(gen, 'w') as f:
+            f.write(patch(source))
     mod = import_file(os.path.join(workdir, base + '.py'))
     return res[base], mod
 
